@@ -15,7 +15,7 @@ from sa.model import Repo
 from sa.norm import T
 from sa.report import Check
 
-from .common import has_forall, callee_name, depends_on, every_alt_has, flow_of, g, has_fact, mutation_sites, op_param, require_guards, rewriter_param, subexprs
+from .common import expand_with_loops, has_forall, callee_name, depends_on, every_alt_has, flow_of, g, has_fact, mutation_sites, op_param, require_guards, rewriter_param, subexprs
 
 CASTS = "snaxc/transforms/realize_memref_casts.py"
 SPACE = "snaxc/transforms/set_memory_space.py"
@@ -227,6 +227,15 @@ def l1(repo: Repo, chk: Check) -> None:
     for s in stores:
         idx = ast.unparse(s.node.targets[0].slice)
         ok_st = norm.match(T(f"$tbl[{op}.operands[{idx}]].dest"), s.node.value) is not None and bool(has_fact(s, [f"{op}.operands[{idx}] in $sel"]))
+        if not ok_st:
+            # `for i, x in enumerate(op.operands)`: x is operand i
+            m_ = norm.match(T("$tbl[$x].dest"), s.node.value)
+            if m_ is not None and isinstance(m_["x"], ast.Name):
+                for lp in [l for l in s.loops if isinstance(l, ast.For) and isinstance(l.target, ast.Tuple) and len(l.target.elts) == 2]:
+                    i_, x_ = lp.target.elts
+                    if isinstance(i_, ast.Name) and isinstance(x_, ast.Name) and i_.id == idx and x_.id == m_["x"].id and norm.any_match(
+                            [f"enumerate({op}.operands)", f"enumerate(tuple({op}.operands))", f"enumerate(list({op}.operands))"], lp.iter) is not None:
+                        ok_st = bool(has_fact(s, [f"{x_.id} in $sel"]))
     chk.result(ok_st, "C12.l1", f"{f.key}:replacement", stores[0].where() if stores else f.where, "operand i is replaced by the dest of the cast recorded for operand i",
                "an operand is not replaced by the dest of its own L1 cast")
     h = f.nested("get_cast_op")
@@ -234,7 +243,8 @@ def l1(repo: Repo, chk: Check) -> None:
     hfl = Flow(h, repo)
     o = h.param(0)
     new = [s for s in hfl.calls("from_type_and_target_space") if s.reachable]
-    ok_new = any(len(s.node.args) >= 3 and ast.unparse(s.node.args[0]) == o and ast.unparse(s.node.args[2]) == "L1.attribute" and has_fact(s, ["$c is None"]) for s in new)
+    ok_new = any(len(s.node.args) >= 3 and ast.unparse(s.node.args[0]) == o and ast.unparse(s.node.args[2]) == "L1.attribute" and has_fact(
+        s, ["$c is None", "not isinstance($c, memref.MemorySpaceCastOp)", "not isinstance($c, MemorySpaceCastOp)", "not $c"]) for s in new)
     chk.result(ok_new, "C12.l1", f"{h.key}:new-cast", new[0].where() if new else h.where, "a new cast goes from this operand to L1 and is only created when none was found")
     reuse = [s for s in hfl.stmts(ast.Assign) if s.reachable and s.loops and isinstance(s.node.targets[0], ast.Name) and ast.unparse(s.node.value).endswith(".operation")]
     ok_re = any(
@@ -242,6 +252,37 @@ def l1(repo: Repo, chk: Check) -> None:
         and any(isinstance(l, ast.For) and ast.unparse(l.iter) == f"{o}.uses" for l in s.loops)
         for s in reuse
     )
+    # the same search spelled `next((u.operation for u in operand.uses if <conditions>), None)`; a condition that is a call of a
+    # local predicate stands for what that predicate establishes when it returns true
+    picked_texts: list[str] = []
+    for s in [x for x in hfl.calls("next") if x.reachable]:
+        c = s.node
+        gen = c.args[0] if c.args else None
+        if not (isinstance(gen, ast.GeneratorExp) and len(gen.generators) == 1 and ast.unparse(gen.generators[0].iter) == f"{o}.uses" and len(c.args) == 2
+                and isinstance(c.args[1], ast.Constant) and c.args[1].value is None):
+            continue
+        conds: list[ast.expr] = []
+        for cnd in gen.generators[0].ifs:
+            for at in norm.atoms(cnd, True):
+                conds.append(at)
+                if isinstance(at, ast.Call) and isinstance(at.func, ast.Name):
+                    pred = None
+                    try:
+                        pred = f.nested(at.func.id)
+                    except Exception:  # noqa: BLE001
+                        pred = repo.try_func(SPACE, at.func.id)
+                    if pred is not None and len(pred.params) == len(at.args):
+                        from sa.flow import expand as _expand, outcome_summary
+                        summ = outcome_summary(pred, repo, 0).get("true") or []
+                        sub_ = dict(zip(pred.params, at.args))
+                        conds.extend(_expand(x.expr, sub_) for x in summ if x.kind == "atom")
+        elt = ast.unparse(gen.elt)
+        texts = [ast.unparse(norm.canon(x)) for x in conds]
+        if any(t_ in (f"isinstance({elt}, memref.MemorySpaceCastOp)", f"isinstance({elt}, MemorySpaceCastOp)") for t_ in texts) and any(
+                "memory_space == L1.attribute" in t_ for t_ in texts):
+            ok_re = True
+            picked_texts = texts
+            reuse = reuse or [s]
     chk.result(ok_re, "C12.l1", f"{h.key}:reuse", reuse[0].where() if reuse else h.where, "a cast is reused only if it is an L1 memory-space cast among this operand's uses",
                "an existing cast is reused without being an L1 cast of this operand")
     # visibility: a re-used cast must be available at the op (defined in its block or an enclosing one, in front of it)
@@ -252,6 +293,9 @@ def l1(repo: Repo, chk: Check) -> None:
         ancestor = "find_ancestor_op_in_block" in txt or "is_ancestor" in txt
         ordered = "get_operation_index" in txt or "is_before_in_block" in txt or "dominates" in txt
         vis = vis or ((same_block or ancestor) and (ordered or same_block))
+    if picked_texts:
+        txt = " ".join(picked_texts)
+        vis = vis or (("find_ancestor_op_in_block" in txt or "is_ancestor" in txt) and ("get_operation_index" in txt or "is_before_in_block" in txt or "dominates" in txt))
     chk.result(vis, "C12.l1", f"{h.key}:reuse-visible", reuse[0].where() if reuse else h.where,
                "a cast is re-used only if it is defined in the op's block or an enclosing one, in front of the op",
                "a cast found among the operand's uses is re-used wherever it is: when the first user sits in a loop (or branch) body the cast is created there, and an op "
@@ -279,7 +323,7 @@ def boundary(repo: Repo, chk: Check) -> None:
     casts = [s for s in gfl.calls("from_type_and_target_space") if s.reachable]
     ok_c = False
     for s in casts:
-        a = [s.expand(x) for x in s.node.args[:3]]
+        a = [expand_with_loops(s, x) for x in s.node.args[:3]]
         ok_c = len(a) == 3 and depends_on(a[2], "$f.function_type.outputs") and depends_on(a[2], "$x.memory_space") and depends_on(a[0], "$op.arguments[$i]") and bool(
             has_fact(s, ["$a.memory_space != $b.memory_space"]))
     chk.result(ok_c, "C12.boundary", f"{g2.key}:cast-to-function-type", casts[0].where() if casts else g2.where,
